@@ -181,6 +181,13 @@ def run(tier, rep, ev):
         for dest in ("abs", "none", "rel"):
             for via in ("path", "stream"):
                 cases.append({"entries": arc, "dest": dest, "via": via, "root": os.path.join(base, f"r{len(cases)}"), "prepopulate": []})
+    # the parallel path (one worker per folder): a member of one folder, checked and then held, while a worker of another folder
+    # creates the links that lead its directory outside - check and use must not be separated by another worker's link
+    for arc, split, watch in (([F(["e", "f"]), L(["d", "x"], [".."]), L(["e"], ["d", "x", ".."])], 1, ["e"]),
+                              ([F(["e", "g", "f"]), L(["d", "x"], [".."]), L(["e"], ["d", "x", "..", "O"])], 1, ["e", "g"]),
+                              ([L(["d", "x"], [".."]), L(["e"], ["d", "x", ".."]), F(["e", "f"])], 2, ["e"])):
+        for dest in ("abs", "rel"):
+            cases.append({"entries": arc, "dest": dest, "via": "path", "split": split, "race": watch, "root": os.path.join(base, f"r{len(cases)}"), "prepopulate": []})
     # two extractions into one destination: the first leaves links (each lexically inside), the second brings directories and files
     # whose names run through them
     firsts = [[L(["a"], ["."]), L(["b"], ["a", ".."])], [L(["a"], ["."]), L(["b"], ["a", "..", "O"])], [L(["d"], [".."]) if False else L(["a"], ["."]), L(["a", "up"], [".."])],
